@@ -345,3 +345,144 @@ def r_guardafteruse(idx, rep, modules, rule="R-GUARDAFTERUSE", floor=3):
                             "`%s` divides by `%s` at line %d, and line %d then tests `%s`: the author expects a zero divisor, but the division has already happened — compiled "
                             "code raises ZeroDivisionError there, the interpreted numpy scalar division returns inf and goes on to the guard"
                             % (u(node)[:60], name, node.lineno, later[0].lineno, u(later[0].test)[:50]))
+
+
+# ---------------------------------------------------------------------------------------------------------------------- R-RESIDUALZERO
+def _is_projection_residual(f, e):
+    """e (resolved) == v - (v . a) * a   (the component of v orthogonal to a), in any operand order; returns (v text, a text) or None"""
+    e = resolved(f.node, e) if isinstance(e, ast.Name) else e
+    if not (isinstance(e, ast.BinOp) and isinstance(e.op, ast.Sub)):
+        return None
+    v, prod = e.left, e.right
+    prod = resolved(f.node, prod) if isinstance(prod, ast.Name) else prod
+    if not (isinstance(prod, ast.BinOp) and isinstance(prod.op, ast.Mult)):
+        return None
+    for t, a in ((prod.left, prod.right), (prod.right, prod.left)):
+        t = resolved(f.node, t) if isinstance(t, ast.Name) else t
+        args = None
+        if isinstance(t, ast.Call) and (call_name(t) or "") in ("np.dot", "np.inner", "np.vdot") and len(t.args) == 2:
+            args = [u(x) for x in t.args]
+        elif isinstance(t, ast.Call) and isinstance(t.func, ast.Attribute) and t.func.attr == "dot" and len(t.args) == 1:
+            args = [u(t.func.value), u(t.args[0])]
+        if args is not None and sorted(args) == sorted([u(v), u(a)]):
+            return u(v), u(a)
+    return None
+
+
+def r_residualzero(idx, rep, modules, rule="R-RESIDUALZERO", floor=0):
+    rep.rule(rule, "a division by the length of a projection residual r = v - (v.a) a is not guarded by an EXACT zero test of that length: for v parallel to a rotated "
+                   "axis a the residual is rounding noise (1e-17), never 0.0 — the guard does not fire and the noise is normalised to full length.  (Components in a "
+                   "local frame, `R.T @ v`, are exactly 0 for exactly representable axes and may be tested with == 0.)", floor=floor)
+    for mname in modules:
+        m = idx.module(mname)
+        for f in sorted(m.functions.values(), key=lambda f: f.key):
+            for n in ast.walk(f.node):
+                d = None
+                if isinstance(n, ast.BinOp) and isinstance(n.op, ast.Div):
+                    d = n.right
+                elif isinstance(n, ast.AugAssign) and isinstance(n.op, ast.Div):
+                    d = n.value
+                if not isinstance(d, ast.Name):
+                    continue
+                s = resolved(f.node, d)
+                arg = None
+                if isinstance(s, ast.Call) and (call_name(s) or "") == "np.linalg.norm" and s.args:
+                    arg = s.args[0]
+                elif isinstance(s, ast.Call) and (call_name(s) or "") in ("math.sqrt", "np.sqrt") and s.args:
+                    inner = s.args[0]
+                    if isinstance(inner, ast.Call) and (call_name(inner) or "") in ("np.dot",) and len(inner.args) == 2 and u(inner.args[0]) == u(inner.args[1]):
+                        arg = inner.args[0]
+                if arg is None:
+                    continue
+                pr = _is_projection_residual(f, arg)
+                if pr is None:
+                    continue
+                key = "%s|division by the length `%s` of the residual of %s along %s" % (f.key, d.id, pr[0], pr[1])
+                where = "%s:%d" % (f.module.relpath, n.lineno)
+                # tests of that length anywhere in the function
+                exact = tol = None
+                for c in ast.walk(f.node):
+                    if isinstance(c, ast.Compare) and len(c.ops) == 1:
+                        l, r_ = c.left, c.comparators[0]
+                        for x, y in ((l, r_), (r_, l)):
+                            if isinstance(x, ast.Name) and x.id == d.id:
+                                if isinstance(c.ops[0], (ast.Eq, ast.NotEq)) and const(y) in (0, 0.0):
+                                    exact = c
+                                elif isinstance(c.ops[0], (ast.Lt, ast.LtE, ast.Gt, ast.GtE)) and const(y) not in (0, 0.0):
+                                    tol = c
+                if exact is not None and tol is None:
+                    rep.bad(rule, key, "%s:%d" % (f.module.relpath, exact.lineno),
+                            "`%s` is the only protection of `%s`, but `%s` is the length of `%s - (%s . %s) %s`: when %s is parallel to %s in a rotated pose the subtraction "
+                            "leaves rounding noise of length ~1e-17 instead of 0.0, the test is false, and the noise direction is scaled to full length — a point off "
+                            "the shape.  Test the residual against a tolerance, or compute the components in the local frame" % (
+                                u(exact), u(n)[:50], d.id, pr[0], pr[0], pr[1], pr[1], pr[0], pr[1]))
+                else:
+                    rep.ok(rule, key, where, "tolerance test" if tol is not None else "no exact-zero guard relied upon")
+
+
+# ---------------------------------------------------------------------------------------------------------------------- R-RIMPOINT
+def r_rimpoint(idx, rep, modules, rule="R-RIMPOINT", floor=3):
+    """a point constructed as `centre + radius * v` lies at distance `radius` from the centre only if v has unit length: v is a unit parameter (normal /
+    direction / axis: domain P), a normalised vector (norm_vector(.), x / |x|), a column of a rotation matrix — never the raw result of a function that is
+    documented not to normalise (pytransform3d's perpendicular_to_vector returns [1, 0, z]), a cross product or a difference of points."""
+    from ..engines.signs import Signs
+    rep.rule(rule, "in `centre + radius * v` (a point on a circle / disk rim / sphere) v is a unit vector: a unit parameter, norm_vector(.), x / |x| or a rotation column — "
+                   "not the raw result of pr.perpendicular_to_vector (documented: not unit length), of a cross product or of a difference", floor=floor)
+    sg = Signs(idx)
+    for mname in modules:
+        m = idx.module(mname)
+        for f in sorted(m.functions.values(), key=lambda f: f.key):
+            seen = set()
+            for n in ast.walk(f.node):
+                if not (isinstance(n, ast.BinOp) and isinstance(n.op, (ast.Add, ast.Sub))):
+                    continue
+                for c, prod in ((n.left, n.right), (n.right, n.left)):
+                    if not (isinstance(prod, ast.BinOp) and isinstance(prod.op, ast.Mult)):
+                        continue
+                    for sc, v in ((prod.left, prod.right), (prod.right, prod.left)):
+                        if not (isinstance(sc, (ast.Name, ast.Attribute)) and "radi" in u(sc).lower() and isinstance(v, (ast.Name, ast.Call, ast.Subscript))):
+                            continue
+                        if id(prod) in seen:
+                            continue
+                        seen.add(id(prod))
+                        key = "%s|`%s`" % (f.key, u(n)[:60])
+                        where = "%s:%d" % (f.module.relpath, n.lineno)
+                        d = v
+                        if isinstance(v, ast.Name):
+                            defs_ = [(st_.lineno, val_) for st_ in ast.walk(f.node) if isinstance(st_, ast.Assign) and st_.lineno <= n.lineno
+                                     for t_, val_ in assign_pairs(st_) if isinstance(t_, ast.Name) and t_.id == v.id]
+                            if defs_:
+                                d = max(defs_, key=lambda x: x[0])[1]          # the definition that reaches the use in straight-line code: the last one before it
+                        if "radi" in u(v).lower():
+                            continue          # radius * radius: a scalar
+                        verdict = None
+                        why = ""
+                        if isinstance(v, ast.Name) and v.id in f.params() and any(w in v.id.lower() for w in ("normal", "direction", "axis")):
+                            verdict, why = True, "unit parameter (domain P)"
+                        elif isinstance(d, ast.Call) and (call_name(d) or "").split(".")[-1] == "norm_vector":
+                            verdict, why = True, "norm_vector(.)"
+                        elif isinstance(d, ast.Call) and (call_name(d) or "").split(".")[-1] == "perpendicular_to_vector":
+                            verdict, why = False, "pr.perpendicular_to_vector returns [1, 0, -x/z] (or e_z): perpendicular, but of length sqrt(1 + (x/z)^2)"
+                        elif isinstance(d, ast.Call) and (call_name(d) or "").split(".")[-1] == "cross":
+                            verdict, why = False, "a cross product has the length |a||b| sin"
+                        elif isinstance(d, ast.BinOp) and isinstance(d.op, ast.Div):
+                            den = resolved(f.node, d.right) if isinstance(d.right, ast.Name) else d.right
+                            if isinstance(den, ast.Call) and (call_name(den) or "") in ("np.linalg.norm", "math.sqrt", "np.sqrt"):
+                                verdict, why = True, "x / |x|"
+                        elif isinstance(d, ast.Subscript) and isinstance(d.slice, ast.Tuple) and len(d.slice.elts) == 2 and isinstance(d.slice.elts[0], ast.Slice) \
+                                and isinstance(const(d.slice.elts[1]), int):
+                            verdict, why = True, "column of a rotation matrix"
+                        if verdict is None:
+                            try:
+                                k = sg.kind(v, f, {})
+                            except Exception:
+                                k = None
+                            if k == "UNIT0":
+                                verdict, why = True, "unit by construction (sign / unit lattice)"
+                        if verdict is True:
+                            rep.ok(rule, key, where, why)
+                        elif verdict is False:
+                            rep.bad(rule, key, where, "`%s` scales `%s` by the radius, but that vector is not unit: %s — the constructed point is not at distance `%s` from the "
+                                                      "centre, i.e. not on the circle / rim it is returned for" % (u(n)[:70], u(v)[:40], why, u(sc)))
+                        else:
+                            rep.unknown(rule, key, where, "unit length of `%s` is not derivable" % u(v)[:40])
